@@ -2,7 +2,6 @@ package keeper
 
 import (
 	"fmt"
-	"math"
 	"strconv"
 	"time"
 
@@ -261,13 +260,13 @@ func (k Keeper) GetFarmingRewardsData(ctx sdk.Context, appID uint64, coinsToDist
 
 			var rewardData []rewardstypes.RewardDistributionDataCollector
 			if !totalRewardEligibleSupply.IsZero() {
-				multiplier := sdkmath.LegacyNewDecFromInt(coinsToDistribute.Amount).Quo(totalRewardEligibleSupply)
 				for index, address := range lpAddresses {
 					if !minMasterChildPoolSupplies[index].IsZero() {
-						calculatedReward := int64(math.Floor(minMasterChildPoolSupplies[index].Mul(multiplier).MustFloat64()))
+						// floor(amount * supply / total): exact fixed-point arithmetic, never above the pro-rata share
+						calculatedReward := minMasterChildPoolSupplies[index].MulInt(coinsToDistribute.Amount).QuoTruncate(totalRewardEligibleSupply).TruncateInt()
 						newData := new(rewardstypes.RewardDistributionDataCollector)
 						newData.RewardReceiver = address
-						newData.RewardCoin = sdk.NewCoin(coinsToDistribute.Denom, sdkmath.NewInt(calculatedReward))
+						newData.RewardCoin = sdk.NewCoin(coinsToDistribute.Denom, calculatedReward)
 						rewardData = append(rewardData, *newData)
 					}
 				}
@@ -285,12 +284,12 @@ func (k Keeper) GetFarmingRewardsData(ctx sdk.Context, appID uint64, coinsToDist
 
 	var rewardData []rewardstypes.RewardDistributionDataCollector
 	if !totalRewardEligibleSupply.IsZero() {
-		multiplier := sdkmath.LegacyNewDecFromInt(coinsToDistribute.Amount).Quo(totalRewardEligibleSupply)
 		for index, address := range lpAddresses {
-			calculatedReward := int64(math.Floor(lpSupplies[index].Mul(multiplier).MustFloat64()))
+			// floor(amount * supply / total): exact fixed-point arithmetic, never above the pro-rata share
+			calculatedReward := lpSupplies[index].MulInt(coinsToDistribute.Amount).QuoTruncate(totalRewardEligibleSupply).TruncateInt()
 			newData := new(rewardstypes.RewardDistributionDataCollector)
 			newData.RewardReceiver = address
-			newData.RewardCoin = sdk.NewCoin(coinsToDistribute.Denom, sdkmath.NewInt(calculatedReward))
+			newData.RewardCoin = sdk.NewCoin(coinsToDistribute.Denom, calculatedReward)
 			rewardData = append(rewardData, *newData)
 		}
 	}
